@@ -16,28 +16,32 @@ func init() {
 }
 
 // counting error kinds
-type cntErr struct {
-	s     string
-	calls *int
+// errCalls counts calls of the error values' own methods (a global,
+// so that the values hold no pointer whose address could be printed).
+var errCalls int
+
+type cntErr struct{ s string }
+
+func (e cntErr) Error() string { errCalls++; return e.s }
+
+type cntErrStr struct{ s string }
+
+func (e cntErrStr) Error() string  { errCalls++; return e.s }
+func (e cntErrStr) String() string { errCalls++; return "STR" + e.s }
+
+type cntErrFmt struct{ s string }
+
+func (e cntErrFmt) Error() string                  { errCalls++; return e.s }
+func (e cntErrFmt) Format(st fmt.State, verb rune) { errCalls++; st.Write([]byte("FMT")) }
+
+// value-receiver wrapping error (no pointer, no address in any rendering)
+type wrapErrV struct {
+	msg string
+	in  error
 }
 
-func (e cntErr) Error() string { *e.calls++; return e.s }
-
-type cntErrStr struct {
-	s     string
-	calls *int
-}
-
-func (e cntErrStr) Error() string  { *e.calls++; return e.s }
-func (e cntErrStr) String() string { *e.calls++; return "STR" + e.s }
-
-type cntErrFmt struct {
-	s     string
-	calls *int
-}
-
-func (e cntErrFmt) Error() string                  { *e.calls++; return e.s }
-func (e cntErrFmt) Format(st fmt.State, verb rune) { *e.calls++; st.Write([]byte("FMT")) }
+func (e wrapErrV) Error() string { errCalls++; return e.msg + ": " + e.in.Error() }
+func (e wrapErrV) Unwrap() error { return e.in }
 
 type errSafeFmt struct{ s string }
 
@@ -75,18 +79,18 @@ type errHolderPriv struct {
 }
 
 // c17Err builds error kind k with text s.
-func c17Err(k int, s string, calls *int) error {
+func c17Err(k int, s string) error {
 	switch k {
 	case 0:
-		return cntErr{s, calls}
+		return cntErr{s}
 	case 1:
-		return &wrapErr{"w", cntErr{s, calls}}
+		return wrapErrV{"w", cntErr{s}}
 	case 2:
 		return (*pNilErr)(nil)
 	case 3:
-		return cntErrStr{s, calls}
+		return cntErrStr{s}
 	case 4:
-		return cntErrFmt{s, calls}
+		return cntErrFmt{s}
 	case 5:
 		return errSafeFmt{s}
 	case 6:
@@ -106,11 +110,11 @@ func H_c17(p []int) {
 	for k := range bs {
 		vAssume(bs[k] != '\n')
 	}
-	vAssume(validUTF8(bs))
+	vAssumeValidUTF8(bs)
 	s := string(bs)
-	calls := 0
+	errCalls = 0
 	nilErrCalls = 0
-	e := c17Err(ek, s, &calls)
+	e := c17Err(ek, s)
 	d := c17Dirs[di]
 	vSite(fmt.Sprintf("err=%d pos=%d dir=%q hook=%d", ek, pos, d, hook))
 	hookCalls := 0
@@ -171,7 +175,7 @@ func H_c17(p []int) {
 	case hook == 1 && dispatched && pos != 6 && pos != 8:
 		// rendered solely by the hook
 		vAssert(hookCalls == 1, "C17/hook-called-once")
-		vAssert(calls == 0 && nilErrCalls == 0, "C17/error-methods-not-called")
+		vAssert(errCalls == 0 && nilErrCalls == 0, "C17/error-methods-not-called")
 		if hookCalls == 1 {
 			vAssert(hookErr == e, "C17/hook-gets-the-error")
 			wantVerb := rune(d[len(d)-1])
@@ -183,10 +187,20 @@ func H_c17(p []int) {
 			}
 			vAssert(hookVerb == wantVerb, "C17/hook-gets-the-verb")
 			if hpanic == 0 {
-				want := []byte("H[" + string(wantVerb) + "‹u›s‹x›]")
-				vAssert(containsBytes(mergeAdj(out), mergeAdj(want)), "C17/hook-output-honoured")
+				// under Safe() the outermost wrapper decides (C06), so the
+				// hook's safe/unsafe calls are only checked outside wrappers
+				if pos != 7 {
+					want := []byte("H[" + string(wantVerb) + "‹u›s‹x›]")
+					vAssert(containsBytes(mergeAdj(out), mergeAdj(want)), "C17/hook-output-honoured")
+				}
 			} else {
-				vAssert(containsBytes(out, []byte("PANIC=")), "C17/hook-panic-reported")
+				// like any method panic: reported as PANIC=, or as <nil> when
+				// the receiver is a nil pointer (fmt's rule)
+				if ek == 2 {
+					vAssert(containsBytes(out, []byte("<nil>")), "C17/hook-panic-reported")
+				} else {
+					vAssert(containsBytes(out, []byte("PANIC=")), "C17/hook-panic-reported")
+				}
 				vAssert(hasPrefix(out, []byte("a ")), "C17/text-before-intact")
 				vAssert(len(out) >= 2 && bytesEq(out[len(out)-2:], []byte(" b")), "C17/text-after-intact")
 			}
